@@ -16,6 +16,7 @@ sys.path.insert(0, HERE)
 sys.path.insert(0, VERIF)
 import kani_run
 import specs
+sys.modules.setdefault('main', sys.modules[__name__])
 
 BUILD = kani_run.BUILD
 EVID = os.path.join(VERIF, "evidence")
